@@ -2039,6 +2039,8 @@ static int parse_table(struct scanner_s *scanner, cif_value_tp **tablep) {
                             TVALUE_LENGTH(scanner), &value)) == CIF_OK) {
                         result = cif_value_get_text(value, &key);
                         cif_value_free(value); /* ignore any error */
+                        /* the entry's value is parsed into a new object unless the key turns out to be usable */
+                        value = NULL;
                         CONSUME_TOKEN(scanner);
                         if (result == CIF_OK) {
                             break;
